@@ -606,14 +606,10 @@ def tr_ctor(res):
     res["ctorBest"] = best
 
 
-INT_CMP = ("<", ">", "<=", ">=", "==", "!=")
-
-
 def mutation_block(stmts, sc, sset, pgm, top):
-    """One `{ unsigned n(0); …; for (i = begin(); i != end(); ++i) if (boolean(pgm)) {…}; if (n) clear; return n; }`
-    block of i_mep::mutation.  A leading `if (<integer comparison>) { <block> }` (a special case decided on the
-    sizes before the loop, each branch a complete block that returns) yields a conditional candidate.
-    Returns (candidate gene `Src`, shape)."""
+    """The `{ unsigned n(0); …; for (i = begin(); i != end(); ++i) if (boolean(pgm)) {…}; if (n) clear; return n; }`
+    body of i_mep::mutation (const integer locals – e.g. `patch = size() > pl ? size() - pl : 0` – are substituted
+    by their definition).  Returns (candidate gene `Src`, shape)."""
     cx = Ctx(sc, "$this", sset=sset)
     shape = {"iter": None, "coin": None, "cand": None, "guard": None, "count": False, "assign": False}
     counter = None
@@ -710,15 +706,6 @@ def mutation_block(stmts, sc, sset, pgm, top):
             if counter is not None and len(ks) == 2 and unbool(ks[0]).get("referencedDecl", {}).get("name") == counter \
                     and cx.ignorable(ks[1]):
                 continue
-            if c0.get("kind") == "BinaryOperator" and c0.get("opcode") in INT_CMP and len(ks) == 2 and \
-                    ks[1].get("kind") == "CompoundStmt" and counter is None and shape["iter"] is None:
-                # a case split on the sizes, decided before anything is drawn: each branch is a whole block
-                cnd = sc.expr(c0)
-                then_src, then_shape = mutation_block(kids(ks[1]), sc.fork(), sset, pgm, False)
-                else_src, else_shape = mutation_block(stmts[pos + 1:], sc, sset, pgm, False)
-                if then_shape != else_shape:
-                    raise Refuse("mutation: the two cases do not have the same shape: %r / %r" % (then_shape, else_shape))
-                return ("cond", cnd, then_src, else_src), then_shape
             raise Refuse("mutation: if statement with an unknown condition")
         if k == "ReturnStmt":
             if counter is None or strip(kids(st)[0]).get("referencedDecl", {}).get("name") != counter:
